@@ -163,7 +163,7 @@ def check(case, ctx):
     # a source with `MMD Header` / `MMD Footer` metadata is pre-processed by main.c (text prepended / appended before conversion): the three
     # CLI routes must still agree with one another; the library reference is only comparable without that pre-processing
     preprocessed = 'mmd header' in src.lower() or 'mmd footer' in src.lower()
-    if cli_ok and (case['cli'] == 0 or preprocessed) and fmt != 'bundle' and '{{' not in src and '{++' not in src and '{--' not in src and '{~~' not in src:
+    if cli_ok and (case['cli'] == 0 or preprocessed) and '{{' not in src and '{++' not in src and '{--' not in src and '{~~' not in src:
         cli = vbuild.cli('asan')
         env = dict(os.environ, ASAN_OPTIONS='detect_leaks=0')
         d = os.path.join(tmp, 'cli')
@@ -183,12 +183,25 @@ def check(case, ctx):
         if preprocessed and '-c' not in case['flags']:
             libref = p1.stdout
             ctx.cls('cli_legs_with_mmd_header_footer')
-        for name, p, got in (('stdout', p1, p1.stdout), ('-o', p2, open(o, 'rb').read() if os.path.exists(o) else None),
-                             ('-b', p3, open(bfile, 'rb').read() if os.path.exists(bfile) else None)):
+        def read_out(path):
+            # an (uncompressed) TextBundle is a folder: compared as the set of its files with the members of the zip the library returns
+            if fmt == 'bundle':
+                return dir_as_members(path) if os.path.isdir(path) else (b'\x01NOT-A-FOLDER' if os.path.exists(path) else None)
+            return open(path, 'rb').read() if os.path.exists(path) else None
+        for name, p, got in (('stdout', p1, p1.stdout), ('-o', p2, read_out(o)), ('-b', p3, read_out(bfile))):
             if p.returncode != 0:
                 raise Violation('cli:exit-status', '%s rc=%d %r' % (name, p.returncode, p.stderr[-500:]))
             if got is None:
                 raise Violation('cli:no-output-file', '%s fmt=%s flags=%r' % (name, fmt, case['flags']))
+            if fmt == 'bundle' and isinstance(got, dict):
+                flat = lambda b_: pkg.UUID.sub(b'UUID', b_)
+                want_m = sorted((flat(n.encode()), flat(c)) for n, c, _ in pkg.members(libref) if not n.endswith('/'))
+                if sorted((flat(n.encode()), flat(c)) for n, c in got.items()) != want_m:
+                    raise Violation('cli-differs:%s' % name, 'fmt=bundle flags=%r: the folder written by the CLI differs from the members of the library result' % (case['flags'],))
+                compared += 1
+                continue
+            if got == b'\x01NOT-A-FOLDER':
+                raise Violation('cli-differs:%s' % name, 'fmt=bundle: %s wrote a file where the other routes write a folder' % name)
             if not eq(fmt, got, libref):
                 raise Violation('cli-differs:%s' % name, 'fmt=%s flags=%r lang=%s\ncli=%r\nlib=%r\nsource=%r' % (fmt, case['flags'], LANGS[lang], got[-300:], libref[-300:], src[:300]))
             compared += 1
